@@ -333,8 +333,64 @@ def _has_assertion(r: Re) -> bool:
 
 # ---- Python regex -> Re ------------------------------------------------------------------
 
-_UNSUPPORTED_FLAGS = {'IGNORECASE': _sc.SRE_FLAG_IGNORECASE, 'MULTILINE': _sc.SRE_FLAG_MULTILINE, 'LOCALE': _sc.SRE_FLAG_LOCALE}
+_UNSUPPORTED_FLAGS = {'MULTILINE': _sc.SRE_FLAG_MULTILINE, 'LOCALE': _sc.SRE_FLAG_LOCALE}
 _REPEAT_LIMIT = 512
+
+# ---- IGNORECASE: one-character items are tabulated with the platform regex engine ----------------------------------------
+# Case-insensitive matching of str patterns is decided per character (LITERAL / NOT_LITERAL / IN each look at one character of the
+# subject), but the rule is intricate (simple lower-casing plus the extra-cases table, character classes lower-case the subject
+# character first, classes without cased members are compared as they are, ...).  Instead of re-implementing it, the item is written
+# back as a one-character pattern and the platform `re` is asked about every code point - the same trust base as \\w \\d \\s.
+
+_CATEGORY_ESCAPES = {
+    _sc.CATEGORY_DIGIT: r'\d', _sc.CATEGORY_NOT_DIGIT: r'\D', _sc.CATEGORY_SPACE: r'\s', _sc.CATEGORY_NOT_SPACE: r'\S',
+    _sc.CATEGORY_WORD: r'\w', _sc.CATEGORY_NOT_WORD: r'\W',
+}
+_ci_cache: Dict[Tuple[str, int], CharSet] = {}
+
+
+def _cp_escape(cp: int) -> str:
+    return '\\U%08x' % cp
+
+
+def _item_pattern(op, av) -> str:
+    """A one-character item of a parsed pattern written back as pattern text (code points as \\UXXXXXXXX escapes)."""
+    if op is _sc.LITERAL:
+        return _cp_escape(av)
+    if op is _sc.NOT_LITERAL:
+        return '[^' + _cp_escape(av) + ']'
+    if op is _sc.IN:
+        parts = []
+        neg = ''
+        for iop, iav in av:
+            if iop is _sc.NEGATE:
+                neg = '^'
+            elif iop is _sc.LITERAL:
+                parts.append(_cp_escape(iav))
+            elif iop is _sc.RANGE:
+                parts.append(_cp_escape(iav[0]) + '-' + _cp_escape(iav[1]))
+            elif iop is _sc.CATEGORY and iav in _CATEGORY_ESCAPES:
+                parts.append(_CATEGORY_ESCAPES[iav])
+            else:
+                raise AnalysisError(f'relang: unsupported item {iop} in a character class')
+        return '[' + neg + ''.join(parts) + ']'
+    raise AnalysisError(f'relang: not a one-character item: {op}')
+
+
+def _tabulate_item(op, av, flags: int) -> CharSet:
+    """The code points a one-character item matches under `flags` (IGNORECASE and/or ASCII), by asking the platform regex engine."""
+    keep = flags & (_sc.SRE_FLAG_IGNORECASE | _sc.SRE_FLAG_ASCII)
+    text = _item_pattern(op, av)
+    key = (text, keep)
+    cs = _ci_cache.get(key)
+    if cs is None:
+        try:
+            rx = re.compile('(?:' + text + ')+', keep)
+        except re.error as e:  # pragma: no cover
+            raise AnalysisError(f'relang: cannot tabulate {text!r}: {e}') from e
+        cs = CharSet((m.start(), m.end() - 1) for m in rx.finditer(_all_chars()))
+        _ci_cache[key] = cs
+    return cs
 
 
 def _category(cat, ascii_only: bool) -> CharSet:
@@ -355,7 +411,9 @@ def _conv(items, flags: int) -> Re:
     ascii_only = bool(flags & _sc.SRE_FLAG_ASCII)
     out: List[Re] = []
     for op, av in items:
-        if op is _sc.LITERAL:
+        if flags & _sc.SRE_FLAG_IGNORECASE and op in (_sc.LITERAL, _sc.NOT_LITERAL, _sc.IN):
+            out.append(('set', _tabulate_item(op, av, flags)))
+        elif op is _sc.LITERAL:
             out.append(('set', CharSet([(av, av)])))
         elif op is _sc.NOT_LITERAL:
             out.append(('set', ~CharSet([(av, av)])))
@@ -649,6 +707,16 @@ class _NFA:
                     self.eps[cur].append(a)
                     cur = b
                     self.eps[cur].append(e)
+        elif k == 'aut':
+            _, n, accepting, edges = r
+            st = [self.new() for _i in range(n)]
+            if n:
+                self.eps[s].append(st[0])
+            for p, cs, q in edges:
+                if cs:
+                    self.chr[st[p]].append((cs, st[q]))
+            for a in accepting:
+                self.eps[st[a]].append(e)
         else:
             raise AnalysisError(f'relang: bad regex node {k}')
         return s, e
@@ -883,6 +951,113 @@ def to_dfa(L: Lang, alpha: Alphabet) -> DFA:
     a = to_dfa(L.args[0], alpha)
     b = to_dfa(L.args[1], alpha)
     return a.product(b, L.kind)
+
+
+# --------------------------------------------------------------------------------------
+# languages as regex nodes; preimages
+# --------------------------------------------------------------------------------------
+
+
+def _aut_node(d: DFA, edge_sets: Dict[Tuple[int, int], CharSet]) -> Re:
+    """('aut', ...) node from the transitions {(p, q): CharSet} of (a relabelling of) the DFA d, restricted to the states that
+    are reachable from state 0 and can still reach an accepting state."""
+    alive = d._alive()
+    if not alive[0]:
+        return chars(_EMPTY)
+    succ: Dict[int, List[int]] = {}
+    for (p, q), cs in edge_sets.items():
+        if cs and alive[p] and alive[q]:
+            succ.setdefault(p, []).append(q)
+    order = [0]
+    index = {0: 0}
+    i = 0
+    while i < len(order):
+        for q in succ.get(order[i], ()):
+            if q not in index:
+                index[q] = len(order)
+                order.append(q)
+        i += 1
+    edges = tuple((index[p], cs, index[q]) for (p, q), cs in sorted(edge_sets.items(), key=lambda kv: kv[0])
+                  if cs and p in index and q in index and alive[q])
+    return ('aut', len(order), frozenset(index[p] for p in order if d.accept[p]), edges)
+
+
+def as_re(L: Lang) -> Re:
+    """A regex node whose language is exactly L (as a set of whole strings), usable inside seq / star / alt.  A plain regex
+    without position assertions is returned as it is; anything else is compiled to its DFA and embedded."""
+    if L.kind == 're' and not _has_assertion(L.args[0]):
+        return L.args[0]
+    alpha = alphabet_for([L])
+    d = to_dfa(L, alpha)
+    edge_sets: Dict[Tuple[int, int], CharSet] = {}
+    for p, row in enumerate(d.trans):
+        per_target: Dict[int, List[Tuple[int, int]]] = {}
+        for k, q in enumerate(row):
+            per_target.setdefault(q, []).extend(alpha.classes[k].ranges)
+        for q, rs in per_target.items():
+            edge_sets[(p, q)] = CharSet(rs)
+    return _aut_node(d, edge_sets)
+
+
+def concat(*langs: Lang) -> Lang:
+    """{ uv.. : u in langs[0], v in langs[1], ... }"""
+    return lang(seq(*[as_re(x) for x in langs]), '(' + ' . '.join(x.label for x in langs) + ')')
+
+
+def preimage(L: Lang, exceptions: Dict[int, str], label: str, alternatives: Optional[Dict[int, Sequence[str]]] = None) -> Lang:
+    """{ s : h(s) in L } for the string map h that rewrites every character independently: code point c becomes exceptions[c]
+    (any string, possibly empty) when listed, and stays itself otherwise.  `alternatives` lists further possible images of a code
+    point whose image depends on context; the preimage is only defined (else AnalysisError) when L cannot tell them apart."""
+    alpha = alphabet_for([L])
+    d = to_dfa(L, alpha)
+    n = d.n_states
+    trans = d.trans
+
+    def image_vector(img: str) -> Tuple[int, ...]:
+        ks = [alpha.class_of(ord(ch)) for ch in img]
+        out = []
+        for p in range(n):
+            for k in ks:
+                p = trans[p][k]
+            out.append(p)
+        return tuple(out)
+
+    groups: Dict[Tuple[int, ...], List[Tuple[int, int]]] = {}
+    vec_cache: Dict[str, Tuple[int, ...]] = {}
+    for cp, img in exceptions.items():
+        vec = vec_cache.get(img)
+        if vec is None:
+            vec = vec_cache[img] = image_vector(img)
+        for other in (alternatives or {}).get(cp, ()):
+            if image_vector(other) != vec:
+                raise AnalysisError(f'relang.preimage[{label}]: the image of U+{cp:04X} depends on its context ({img!r} or {other!r}) and '
+                                    f'the language {L.label} distinguishes the two')
+        groups.setdefault(vec, []).append((cp, cp))
+    exc = CharSet((cp, cp) for cp in exceptions)
+    edge_ranges: Dict[Tuple[int, int], List[Tuple[int, int]]] = {}
+    for p, row in enumerate(trans):
+        for k, q in enumerate(row):
+            edge_ranges.setdefault((p, q), []).extend((alpha.classes[k] - exc).ranges)
+    for vec, pts in groups.items():
+        for p in range(n):
+            edge_ranges.setdefault((p, vec[p]), []).extend(pts)
+    return lang(_aut_node(d, {pq: CharSet(rs) for pq, rs in edge_ranges.items()}), f'{label}^-1({L.label})')
+
+
+def strip_preimage(L: Lang, cs: CharSet, left: bool = True, right: bool = True, label: str = 'strip') -> Lang:
+    """{ s : t in L } where t is s without its leading (left) / trailing (right) run of characters from cs."""
+    inner = chars(~cs)
+    if left and right:
+        core = alt(EPS, inner, seq(inner, star(anychar()), inner))
+    elif left:
+        core = alt(EPS, seq(inner, star(anychar())))
+    elif right:
+        core = alt(EPS, seq(star(anychar()), inner))
+    else:
+        return L
+    kept = as_re(L & lang(core, 'trimmed'))
+    pad = star(chars(cs))
+    return lang(seq(pad if left else EPS, kept, pad if right else EPS), f'{label}^-1({L.label})')
 
 
 # --------------------------------------------------------------------------------------
